@@ -57,7 +57,7 @@ def run(tier):
                 "formulas for 64-bit words and every rate 1..10^9 symbolically (Apalache/Z3); traces: exhaustive "
                 "small grid, boundary values (0, 1, rate-1, 2038/2106/2262 limits, INT64_MIN/MAX offsets) at rates 1..10^9 and "
                 "random values on the real Timestamp under UBSan, verified with unbounded arithmetic by TLC; blocks: exporter "
-                "histories with out-of-order and untimed records, TLC checks earliest-time <= every stored instant and exact "
+                "histories with out-of-order and untimed records, blocks copied / moved while they hold timed records, TLC checks earliest-time <= every stored instant and exact "
                 "recovery on the real bytes")
     chk.assumptions = ["TLC + CommunityModules", "Apalache 0.58 + Z3 (symbolic part)", "UBSan as the instrument for undefined arithmetic", "driver logging"]
     models(chk, tier)
@@ -84,6 +84,25 @@ def run(tier):
     n = 40 if tier == "quick" else 600
     hs = [histgen.gen_history(rng, nops=rng.choice([10, 25]), comp="none", sizes=[2, 4, 10000], rot=False,
                               qr_mode=rng.choice(["sparse", "one", None])) for _ in range(n)]
+    # blocks the application keeps itself and copies / moves to another object while they hold timed records: the copy
+    # receives earlier, equal and later instants afterwards - its earliest time stays the minimum over all of them
+    for k in range(30 if tier == "quick" else 400):
+        pools = histgen.Pools(rng)
+        tps = rng.choice([1, 1000, 1000000])
+        bp = histgen.gen_bp(rng, pools, tps=tps, maxitems=10000, hints=(histgen.ALL_QRH, histgen.ALL_SIGH, 3, 3))
+        def timed(kind, secs):
+            r = histgen.gen_qr(rng, pools, tps, 1500000000, "sparse") if kind == "qr" else histgen.gen_mm(rng, pools, tps, 1500000000)
+            r["ts"] = {"s": histgen.nat(secs), "t": histgen.nat(rng.randrange(tps))}
+            return {"op": "x" + kind, "r": r}
+        base = 1500000000 + rng.randrange(1000)
+        ops = [{"op": "xnew", "i": 0}]
+        ops += [timed(rng.choice(["qr", "mm"]), base + rng.randrange(-5, 6)) for _ in range(rng.choice([1, 2, 3]))]
+        ops.append({"op": "xmove", "how": ["cctor", "cassign", "mctor", "massign", "vector"][k % 5]})
+        ops += [timed(rng.choice(["qr", "mm"]), base + d) for d in rng.sample([-9, -1, 0, 1, 7, 100], 3)]
+        ops += [{"op": "xwb"}, {"op": "xclear"}, timed("qr", base + 50), {"op": "xmove", "how": ["cassign", "cctor"][k % 2]},
+                timed("qr", base + 60), {"op": "xwb"}]
+        hs.append({"comp": "none", "out": "file", "preamble": {"major": histgen.nat(1), "minor": [], "private": histgen.nat(1), "bps": [bp]},
+                   "ops": ops})
     m2 = run_histories(chk, hs, {"C17"}, label="c17x", sample=False)
     chk.distinct = merged["execs"] + m2["execs"] + m3["execs"]
     return chk.finish()
